@@ -119,6 +119,17 @@ def run(case):
             res[cfg] = res[cfg + '2'] = res[cfg + '3'] = 'X build:' + type(e).__name__ + ':' + str(e)[:60]
             continue
         res['tree_' + cfg] = guarded(lambda: tree_of(q._child_._child_))
+        if case.get('abandon'):
+            # an evaluation that is abandoned after a few results comes first: what follows must not depend on it
+            def partial():
+                it = q.evaluate()
+                for _ in range(case['abandon']):
+                    try:
+                        next(it)
+                    except StopIteration:
+                        break
+                it.close()
+            guarded(partial)
         for suffix in ('', '2', '3'):
             res[cfg + suffix] = guarded(lambda: ';'.join(f'{o.item.idx}:{o.tag}' for o in q.evaluate()))
     enable_caching()
